@@ -114,7 +114,9 @@ def body(c):
             c.violation(dict(key, problem="not_prompt", seconds=b["seconds"]), "C10: %s: the error came after %.1fs" % (sc, b["seconds"]), {})
         for nm in ("C", "D"):
             x = calls.get(nm)
-            if x and x["outcome"] == "ok" and set(x.get("pids", [])) & set(r.get("killed", [])):
+            # (a worker identity = pid + start time; only kills that were over a quarter of a second before the call began count: the
+            # kill of the 'startup' stage is sent by a timer and may land after the short call it was aimed at)
+            if x and x["outcome"] == "ok" and any(who in x.get("pids", []) and x.get("t0", 0) > tk + 0.25 for who, tk in r.get("killed", [])):
                 c.violation(dict(key, problem="dead_pid_reused", call=nm), "C10: results claim to come from killed workers", {})
     c.traces_validated = len(S)
     c.rule = ("fault scenarios on the real loky backend, one driver process each: stage of the victim's life cycle (task start, mid-task external kill, argument "
